@@ -1,5 +1,7 @@
 import Driver.Common
+import Driver.C01
 import UralModel.Model.LinksFromHtml
+import UralModel.Model.LinksConcrete
 import UralModel.Model.UrlsFromHtml
 import UralModel.Py.Re
 import UralModel.Gen.HtmlRe
@@ -15,6 +17,15 @@ Driver handler for C17 (`urls_from_html`, `links_from_html`).
   the model (scan, strip, unescape, filter chain).  The tables are the values of the
   *parameter* functions of the model, computed by the harness with the real functions; a
   missing entry is an error of its own kind (`missing:<table>`), never a default.
+* `{"f":"links_concrete","doc":s | "hrefs":[…],"bytes":bool,"base":b,"canonicalize":…,
+   "unique":…,"strip_fragment":…,"puny":{label:decoded},"tlds":[[label,bool]]}` → the same
+  shape of answer, computed by `linksFromHtmlConcrete`: `PROTOCOL_RE.match`, `urljoin`,
+  `is_url`, `canonicalize_url` are the Lean models; only the idna codec (`puny`, a label
+  the table lacks is left as it is, what `attempt_to_decode_idna` does on failure) and the
+  TLD table (`tlds`) are shipped.  A TLD label the model asks about and the table lacks is
+  detected by running the chain with both defaults (`missing:tlds` when the answers differ).
+* `{"f":"is_url_concrete","s":…,"tlds":…}`, `{"f":"canon_concrete","url":…,"strip_fragment":…,
+  "puny":…}`, `{"f":"urljoin_concrete","base":…,"url":…}`: the three component models alone.
 -/
 open Lean Ural Ural.Html Ural.Py
 
@@ -88,8 +99,61 @@ def handSpans (n : Nat) : Nat → List Char → List (Nat × Nat)
 
 def jspans (xs : List (Nat × Nat)) : Json := jlist (xs.map fun (a, b) => jlist [jnat a, jnat b])
 
+def tldTable (j : Json) : List (Str × Bool) :=
+  (fieldArr j "tlds").filterMap fun p =>
+    match p with
+    | .arr a => match a.toList with
+      | [.str s, .bool b] => some (chars s, b)
+      | _ => none
+    | _ => none
+
+/-- the shipped world; `dflt` is the answer for a TLD label the table lacks -/
+def worldOf (j : Json) (dflt : Bool) : World :=
+  let tlds := tldTable j
+  { puny := Driver.C01.punyOf j
+    validTld := fun l => match tlds.find? (fun p => p.1 == l) with
+      | some (_, b) => b
+      | none => dflt }
+
+def outLinks (r : List Str × Option PyErr) : Json :=
+  Json.mkObj ([("links", jstrs (r.1.map unchars))] ++
+    (match r.2 with | none => [] | some e => [("error", Json.str (errName e))]))
+
+def jOptErr (o : Option Str) : Json :=
+  match o with
+  | some s => jstr (unchars s)
+  | none => jerr "ValueError"
+
+def linksConcrete (j : Json) : Json :=
+  let hrefs : Except PyErr (List Str) :=
+    match field j "hrefs" with
+    | .arr a => .ok (a.toList.map fun x => match x with | .str s => chars s | _ => [])
+    | _ =>
+      let doc := chars (fieldStr j "doc")
+      if fieldBool j "bytes" then urlsFromHtmlBytes utf8Decode unescapeBasic (utf8 doc)
+      else .ok (urlsFromHtmlStr unescapeBasic doc)
+  match hrefs with
+  | .error e => jerr (errName e)
+  | .ok hs =>
+    let run (d : Bool) := linksFromHtmlConcrete (worldOf j d) (fieldBool j "canonicalize")
+      (fieldBool j "unique") (fieldBool j "strip_fragment") (chars (fieldStr j "base")) hs
+    let r0 := run false
+    let r1 := run true
+    if r0.1 == r1.1 && (r0.2.map errName) == (r1.2.map errName) then outLinks r0
+    else jerr "missing:tlds"
+
 def handle (f : String) (j : Json) : Option Json :=
   match f with
+  | "links_concrete" => some (linksConcrete j)
+  | "is_url_concrete" =>
+    let s := chars (fieldStr j "s")
+    let a := isUrlC (worldOf j false) s
+    let b := isUrlC (worldOf j true) s
+    some (if a == b then jbool a else jerr "missing:tlds")
+  | "canon_concrete" =>
+    some (jOptErr (canonC (worldOf j false) (fieldBool j "strip_fragment") (chars (fieldStr j "url"))))
+  | "urljoin_concrete" =>
+    some (jOptErr (Py.urljoin (chars (fieldStr j "base")) (chars (fieldStr j "url"))))
   | "anchor_spans" =>
     -- three-way comparison: real `re` (harness) / generic interpreter of `Py/Re.lean` on the
     -- regenerated term / hand-written scanner
